@@ -383,3 +383,51 @@ func fieldStores(info *types.Info, body ast.Node) []fieldStore {
 	})
 	return out
 }
+
+// wholeStructStores: `*recv = T{...}` overwrites every member of the receiver's
+// struct: those not listed get their zero value, those listed the given one —
+// except a member given its own current value (`Rounding: t.Rounding`), which
+// is kept. It returns the members so written, with the statement's position.
+func wholeStructStores(info *types.Info, body ast.Node, recv *types.Var) map[*types.Var]token.Pos {
+	out := map[*types.Var]token.Pos{}
+	if recv == nil || body == nil {
+		return out
+	}
+	ast.Inspect(body, func(n ast.Node) bool {
+		as, ok := n.(*ast.AssignStmt)
+		if !ok || len(as.Lhs) != 1 || len(as.Rhs) != 1 || as.Tok != token.ASSIGN {
+			return true
+		}
+		star, ok := ast.Unparen(as.Lhs[0]).(*ast.StarExpr)
+		if !ok || core.VarOf(info, star.X) != recv {
+			return true
+		}
+		cl, ok := ast.Unparen(as.Rhs[0]).(*ast.CompositeLit)
+		if !ok {
+			return true
+		}
+		_, st := core.StructOf(info.TypeOf(cl))
+		if st == nil {
+			return true
+		}
+		kept := map[string]bool{}
+		for _, el := range cl.Elts {
+			kv, ok := el.(*ast.KeyValueExpr)
+			if !ok {
+				return true // positional literal: every member is written
+			}
+			id, _ := kv.Key.(*ast.Ident)
+			se, isSel := ast.Unparen(kv.Value).(*ast.SelectorExpr)
+			if id != nil && isSel && se.Sel.Name == id.Name && core.VarOf(info, se.X) == recv {
+				kept[id.Name] = true
+			}
+		}
+		for i := 0; i < st.NumFields(); i++ {
+			if !kept[st.Field(i).Name()] {
+				out[st.Field(i)] = as.Pos()
+			}
+		}
+		return true
+	})
+	return out
+}
